@@ -180,6 +180,39 @@ def run_case(case):
                 shown = f"<object whose repr raises {type(ex).__name__}>"
             viol.append(V(f"c10:accepts-out-of-range:{what}", f"{what}_{tuple(args)} accepted: {shown}"))
         return {"viol": viol, "outcome": "rejected" if not viol else "accepted", "key": f"x{what}{args}"}
+    if kind == "scan":
+        # complete scan of the one-argument spellings: every integer lo..hi-1 (and its decimal string) plus the listed longer
+        # ones; accepted iff it is a 2-digit Voigt (digits 1-6) or 4-digit standard (digits 1-3) spelling, and then equal to
+        # the key built digit by digit
+        what = case["what"]
+        f = _c if what == "c" else _e
+        todo = list(range(case["lo"], case["hi"])) + list(case.get("extra", []))
+        n_acc = 0
+        for n in todo:
+            sn = str(n)
+            if what == "c":
+                ok = (len(sn) == 2 and all(ch in "123456" for ch in sn)) or (len(sn) == 4 and all(ch in "123" for ch in sn))
+            else:
+                ok = (len(sn) == 1 and sn in "123456") or (len(sn) == 2 and all(ch in "123" for ch in sn))
+            for arg in (n, sn):
+                try:
+                    got = f(arg)
+                    acc = True
+                except Exception:
+                    acc = False
+                if acc and not ok and len(viol) < 5:
+                    viol.append(V(f"c10:accepts-out-of-range:{what}:scan", f"{what}_({arg!r}) accepted"))
+                elif ok and not acc and len(viol) < 5:
+                    viol.append(V(f"c10:spelling-rejected:{what}:scan", f"{what}_({arg!r}) (a valid one-argument spelling) rejected"))
+                elif ok and acc:
+                    n_acc += 1
+                    try:
+                        same = got == f(*[int(ch) for ch in sn])
+                    except Exception:
+                        same = False
+                    if not same and len(viol) < 5:
+                        viol.append(V(f"c10:spelling-differs:{what}:scan", f"{what}_({arg!r}) differs from the key built from its digits"))
+        return {"viol": viol, "outcome": f"scan-{what}-{n_acc}-accepted" if not viol else "scan-bad", "key": f"scan{what}{case['lo']}"}
     raise HarnessError(f"unknown case kind {kind}")
 
 
@@ -249,6 +282,11 @@ def explore(ctx):
     ctx.run(MOD, "run_case", [{"kind": "strain", "ij": [i, j]} for i in (1, 2, 3) for j in (1, 2, 3)],
             part="strain-pairs", parallel=False)
     ctx.run(MOD, "run_case", reject_cases(), part="out-of-range", parallel=False)
+    hi = 100000 if ctx.quick else 3000000
+    long_ones = [int(pre + suf) for pre in ("1", "5", "9", "10", "100", "123", "1111", "3" * 12) for suf in ("1123", "1111", "3333", "2312", "11", "66", "45")]
+    ctx.run(MOD, "run_case", [{"kind": "scan", "what": "c", "lo": lo, "hi": min(hi, lo + 50000), "extra": long_ones if lo < 0 else []} for lo in range(-1000, hi, 50000)] +
+            [{"kind": "scan", "what": "e", "lo": -1000, "hi": 100000}], part="one-argument-scan")
+    ctx.notes["one_argument_scan"] = f"every integer -1000..{hi - 1} and its decimal string through c_ (e_: -1000..99999), plus {len(long_ones)} longer integers"
     ctx.run(MOD, "run_case", [{"kind": "global"}], part="global", parallel=False)
     # the same complete domain in an interpreter started with -O (assert statements stripped)
     ctx.run_under(MOD, "run_case", [{"kind": "batch", "cases": reject_cases()}, {"kind": "batch", "cases": cases},
